@@ -19,12 +19,20 @@ NoteSites == {"table_note", "column_note", "index_note", "enumitem_note", "group
 \* (known findings F-C02d, F-C15a, F-C02j; string defaults: F-C13c)
 DriftSites == {"column_note", "index_note", "enumitem_note", "table_prop", "column_prop", "project_field", "string_default", "index_name"}
 
+ExprSites == {"expr_default", "index_expr"}
 InDomain(e) ==
   /\ e.site \in NoteSites => HasInk(e.t)
+  /\ (e.site \in NoteSites /\ e.route = "sql") => Norm(e.t) = e.t
+  \* an expression is one line of text without a backtick (it could not have been written otherwise)
+  /\ e.site \in ExprSites => (e.t # <<>> /\ \A i \in DOMAIN e.t : e.t[i] \notin {LF, "`"})
+  \* (the DDL reader separates index subjects at commas outside double quotes: it cannot read an expression with an unbalanced ")
+  /\ e.site = "index_expr" => \A i \in DOMAIN e.t : e.t[i] # DQ
   /\ (e.site \in NoteSites /\ e.route = "rendered") => Norm(e.t) = e.t
   /\ e.site = "index_name" => e.t # <<>>
 
-Expected(e) == IF e.site \in NoteSites /\ e.route = "authored" THEN Norm(e.t) ELSE e.t
+Expected(e) == IF e.site \in NoteSites /\ e.route = "authored" THEN Norm(e.t)
+               ELSE IF e.site \in NoteSites /\ e.route = "sql" THEN SqlNote(e.t)     \* body of COMMENT ... IS '...'
+               ELSE e.t                                                              \* expressions: verbatim inside ( )
 
 DriftId(site) == CASE site \in {"column_note", "index_note", "enumitem_note"} -> "dev:F-C02d"
                     [] site \in {"table_prop", "column_prop"} -> "dev:F-C15a"
@@ -35,6 +43,8 @@ Verdict(e) ==
   IF ~InDomain(e) THEN "out-of-domain"
   \* F-C02a: an empty string default is falsy and is not rendered
   ELSE IF e.route = "rendered" /\ e.site = "string_default" /\ e.t = <<>> /\ e.ok /\ e.rest THEN "dev:F-C02a"
+  ELSE IF e.route = "sql" /\ ~e.ok THEN "the SQL script cannot be read back (a literal ends early?)"
+  ELSE IF e.route = "sql" /\ e.site \in NoteSites /\ ~SqlNeutral(e.stored) THEN "bare single quote inside the SQL literal"
   ELSE IF ~e.ok THEN
        (IF e.route = "rendered" /\ MultiLine(e.t) /\ e.site \in DriftSites THEN DriftId(e.site) ELSE "text breaks its literal: parse fails")
   ELSE IF e.stored # Expected(e) THEN
